@@ -767,7 +767,9 @@ Proof.
   destruct (N.eq_dec count 0) as [Hz|Hnz].
   - (* nothing asked for: read_n returns the default slice without touching the arena *)
     subst count. assert (bs = []) by (apply nlen_zero; lia). subst bs. cbn in E. inversion E; subst h' g'.
-    destruct (set_cache_refines h g s (gcache_ g) I Rs (gi_cache h g I)) as (I' & R'). split; [exact I'|]. exists false. exact R'.
+    destruct (set_cache_refines h g s (gcache_ g) I Rs (gi_cache h g I)) as (I' & R').
+    destruct (push_anchor_refines h _ s {| acount := 0; achunk := None |} I' R') as (I2 & R2).
+    split; [exact I2|]. exists false. exact R2.
   - assert (Hcpos : 0 < count) by lia.
     destruct (arena_read_n h (gcache_ g) bs count) as [[[[hp kp'] sp] ap]|] eqn:EA; [|discriminate].
     destruct (arena_read_n_spec _ _ _ _ _ _ _ _ (gi_cache h g I) (gi_heap h g I) Hcpos Hcount EA)
@@ -776,7 +778,8 @@ Proof.
     destruct bs as [|b0 bs0] eqn:Ebs.
     + (* nothing delivered: the slice is empty, only the cache may have moved *)
       rewrite Enew in E. cbn [sl_len nlen length N.of_nat] in E. cbn in E. inversion E; subst h' g'.
-      split; [exact I1|]. exists false. exact R1.
+      destruct (push_anchor_refines hp _ s ap I1 R1) as (I2 & R2).
+      split; [exact I2|]. exists false. exact R2.
     + rewrite <- Ebs in *. assert (Hne : bs <> []) by (rewrite Ebs; discriminate). specialize (Hok Hne).
       pose proof (sl_len_pos hp sp Hok) as Hpos.
       destruct (sl_len sp =? 0) eqn:E0; [apply N.eqb_eq in E0; lia|].
